@@ -94,7 +94,10 @@ func main() {
 			os.Exit(2)
 		}
 		seed, _ := strconv.ParseUint(seedS, 10, 64)
-		r := NewRand(seed*0x9E3779B97F4A7C15 + hashStr(id))
+		// the splitmix64 state advances by the golden constant per draw, so the initial states of different
+		// seeds must NOT lie on one "+golden" lattice (seed k would be seed 1 advanced by k-1 draws and the
+		// streams would coincide from the first point where the generators' draw counts line up): scramble
+		r := NewRand(mixSeed(seed*0xD1B54A32D192ED03+0x94D049BB133111EB) ^ hashStr(id))
 		cases := append([]string{}, p.Corpus...)
 		// corpus files: /verif/corpus/<id>/*.case, one case per line
 		root := os.Getenv("VERIF_ROOT")
@@ -161,4 +164,14 @@ func main() {
 		fmt.Fprintln(os.Stderr, "unknown command")
 		os.Exit(2)
 	}
+}
+
+// mixSeed is the 64-bit finaliser of MurmurHash3: a bijection that spreads consecutive seeds over the state space.
+func mixSeed(x uint64) uint64 {
+	x ^= x >> 33
+	x *= 0xff51afd7ed558ccd
+	x ^= x >> 33
+	x *= 0xc4ceb9fe1a85ec53
+	x ^= x >> 33
+	return x
 }
